@@ -45,6 +45,8 @@ def snap(v, depth=0):
         return ("set", tuple(sorted(repr(x) for x in v)))
     if isinstance(v, dt.datetime):
         return ("dt", v.isoformat(), str(getattr(v, "precision", None)), str(getattr(v, "precision_constraint", None)))
+    if hasattr(v, "root_types") and type(v).__module__ == "stix2.patterns":       # a pattern model node: its text and the object types it can match
+        return ("pattern-node", type(v).__name__, str(v), tuple(sorted(v.root_types)), snap(getattr(v, "operands", None), depth + 1))
     if hasattr(v, "_defaults") and hasattr(v, "create"):          # ObjectFactory
         return ("factory", snap(v._defaults, depth + 1))
     if hasattr(v, "factory") and hasattr(v, "source"):            # Environment
@@ -94,7 +96,9 @@ def fresh(shape):
     unreg = [dict(type="x-unreg", spec_version="2.1", id="x-unreg--" + U + "6", created=TS, modified=TS, name="u1", nested={"k": [1, {"z": 2}]}),
              dict(type="x-unreg", spec_version="2.1", id="x-unreg--" + U + "6", created=TS, modified="2020-01-02T00:00:00.000Z", name="u2", nested={"k": [3]})]
     unreg_bundle = {"type": "bundle", "id": "bundle--" + U + "7", "objects": [copy.deepcopy(unreg[0]), copy.deepcopy(unreg[1])]}
-    a = dict(d=d, o=o, sco=sco, od=od, lst20=lst20, unreg=unreg, unreg_bundle=unreg_bundle, marks=marks, sels=sels, lst=lst, red=RED, pats=["[a:b = 1]", "[a:b = 2] OR [a:b = 1]"],
+    import stix2.patterns as _P
+    pnodes = [_P.EqualityComparisonExpression(_P.ObjectPath(t, ["name"]), _P.StringConstant("x")) for t in ("file", "file", "process")]
+    a = dict(pnodes=pnodes, d=d, o=o, sco=sco, od=od, lst20=lst20, unreg=unreg, unreg_bundle=unreg_bundle, marks=marks, sels=sels, lst=lst, red=RED, pats=["[a:b = 1]", "[a:b = 2] OR [a:b = 1]"],
              rel=dict(type="relationship", spec_version="2.1", id="relationship--" + U + "3", created=TS, modified=TS, relationship_type="uses", source_ref=d["id"], target_ref="tool--" + U + "4"),
              defaults={"external_references": [copy.deepcopy(ext) if shape != "noncanonical-hashes" else {"source_name": "s", "url": "u"}], "object_marking_refs": [GREEN.id]},
              filters=[["labels", "in", list(sels)], ["name", "=", "n"]], opts={"pretty": True, "indent": 2})
@@ -224,6 +228,12 @@ def ops():
         "misc:equivalent-patterns": lambda a: (EP.equivalent_patterns(a["pats"][0], a["pats"][1]), EP.find_equivalent_patterns("[a:b = 1]", a["pats"])),
         "misc:create_pattern_object": lambda a: str(stix2.pattern_visitor.create_pattern_object(a["pats"][1])),
         "misc:deduplicate": lambda a: stix2.utils.deduplicate(a["lst"]),
+        # -- pattern model nodes assembled into larger expressions (the nodes are the caller's objects)
+        "pattern:or-over-nodes": lambda a: stix2.patterns.OrBooleanExpression([a["pnodes"][0], a["pnodes"][2]]),
+        "pattern:and-over-nodes": lambda a: stix2.patterns.AndBooleanExpression([a["pnodes"][0], a["pnodes"][1]]),
+        "pattern:and-refused": lambda a: stix2.patterns.AndBooleanExpression([a["pnodes"][1], a["pnodes"][2]]),
+        "pattern:parenthetical+observation": lambda a: str(stix2.patterns.ObservationExpression(stix2.patterns.ParentheticalExpression(stix2.patterns.OrBooleanExpression([a["pnodes"][0], a["pnodes"][2]])))),
+        "pattern:operands-list": lambda a: stix2.patterns.OrBooleanExpression(a["pnodes"]),
         "misc:datetime-utils": lambda a: (stix2.utils.format_datetime(a["o"].created), stix2.utils.parse_into_datetime(a["o"].created, precision="second")),
     }
     return O
